@@ -136,3 +136,44 @@ def pass_back(prop="C02"):
                                          z3.SubSeq(pend(v1), 1, z3.Length(pend(v0))) == pend(v0)))
     c.no_raise = True
     return c
+
+
+def include_forwards_configuration(prop="C03", names=("docmark", "predocmark", "docmark_alt", "predocmark_alt", "fixed", "length_limit", "inc_dirs", "encoding"), replay=None):
+    """FortranReader.include(): an included file is read by a nested FortranReader.  It is part of the including file: the nested reader must be configured like this one.
+    For every configuration parameter P in `names` the nested call binds P (by position, per the signature of __init__ read from the same source, or by keyword) to
+    `self.P`."""
+    import ast
+    from harness import loader
+    from harness.core import OR, PROVED, REFUTED, UNKNOWN
+    try:
+        inc = loader.find_def("ford.reader", "FortranReader.include")
+        init = loader.find_def("ford.reader", "FortranReader.__init__")
+    except loader.TargetMissing as e:
+        return [OR(id=f"{prop}.S.FortranReader.include.configuration", status=UNKNOWN, kind="S", target="ford.reader.FortranReader.include", detail=str(e))]
+    params = [a.arg for a in init.args.args][1:]             # without self
+    calls = [c for c in ast.walk(inc) if isinstance(c, ast.Call) and isinstance(c.func, ast.Name) and c.func.id == "FortranReader"]
+    if len(calls) != 1:
+        return [OR(id=f"{prop}.S.FortranReader.include.configuration", status=UNKNOWN, kind="S", target="ford.reader.FortranReader.include", detail=f"{len(calls)} nested reader constructions")]
+    call = calls[0]
+    bound = {}
+    for i, a in enumerate(call.args):
+        if i < len(params):
+            bound[params[i]] = ast.unparse(a)
+    for k in call.keywords:
+        if k.arg:
+            bound[k.arg] = ast.unparse(k.value)
+    out = []
+    for p in names:
+        if p not in params:
+            out.append(OR(id=f"{prop}.S.FortranReader.include.forwards_{p}", status=UNKNOWN, kind="S", target="ford.reader.FortranReader.include", detail=f"__init__ has no parameter {p}"))
+            continue
+        ok = bound.get(p) == f"self.{p}"
+        r = OR(id=f"{prop}.S.FortranReader.include.forwards_{p}", status=PROVED if ok else REFUTED, kind="S", role="pre", backend="ast", target="ford.reader.FortranReader.include",
+               desc=f"the nested reader of an included file gets `{p}=self.{p}` (bound: `{bound.get(p, '<default of __init__>')}`)")
+        if not ok:
+            r.witness = {"call": ast.unparse(call)[:300], "parameter": p, "bound_to": bound.get(p)}
+            r.detail = f"the included file is read with another `{p}` than the file that includes it"
+            if replay:
+                r.replay = replay()
+        out.append(r)
+    return out
